@@ -12,7 +12,7 @@ from __future__ import annotations
 
 from . import term as tm
 from .term import T, INT, BOOL, STR
-from .values import (VT, VNone, NONE, VTuple, VList, VDict, VRepList, VObj, VClass, VModel, VSlice, VOpaque, State)
+from .values import (VT, VNone, NONE, VTuple, VList, VDict, VRepList, VObj, VClass, VModel, VModule, VSlice, VOpaque, State)
 from .symex import Unsupported
 from . import models as M
 from .models_bio import BioModels
@@ -345,18 +345,18 @@ def _wrap_dict_method(name, orig):
             s1 = st.assume(absent).set(self, "arr", VT(tm.store(arr, kt, vt)))
             keys = st.ghost.get("map_keys:%d" % self.oid, {})
             s2 = st.assume(tm.not_(absent)).fork()
-            return [(s1, "ok", v), (s2, "ok", abstract_entity(s2, kind, cur))]
+            return [(s1, "ok", v), (s2, "ok", ex.models.from_elem(ex, s2, cur))]
         if name == "get":
             default = args[1] if len(args) > 1 else NONE
             s2 = st.assume(tm.not_(absent)).fork()
-            return [(st.assume(absent), "ok", default), (s2, "ok", abstract_entity(s2, kind, cur))]
+            return [(st.assume(absent), "ok", default), (s2, "ok", ex.models.from_elem(ex, s2, cur))]
         if name == "__getitem__":
             s2 = st.assume(tm.not_(absent)).fork()
-            return ex.raise_(st.assume(absent), "KeyError", k) + [(s2, "ok", abstract_entity(s2, kind, cur))]
+            return ex.raise_(st.assume(absent), "KeyError", k) + [(s2, "ok", ex.models.from_elem(ex, s2, cur))]
         if name == "pop":
             s2 = st.assume(tm.not_(absent)).fork()
             s2.set_inplace(self, "arr", VT(tm.store(arr, kt, ABSENT)))
-            res = [(s2, "ok", abstract_entity(s2, kind, cur))]
+            res = [(s2, "ok", ex.models.from_elem(ex, s2, cur))]
             if len(args) > 1:
                 res.append((st.assume(absent), "ok", args[1]))
             else:
@@ -455,3 +455,228 @@ def _join_of(self, ex, st, fr, sep, v):
 
 MocloModels.comprehension = _comprehension
 MocloModels.join_of = _join_of
+
+
+# ---------------------------------------------------------------------- registries: dict with symbolic *string* keys,
+# abstract items, sets of labels (D-SET), abstract file system (D-FS)
+M.ASSUMPTIONS["D-DICT"] = ("python dict: setdefault/get/[]/in/pop/len/iteration as documented; keys compared by == and hash "
+                           "(str: exact text)")
+M.ASSUMPTIONS["D-SET"] = ("python set: set(x) holds the elements of x; a.intersection(b) holds exactly the elements of a that are "
+                          "keys of b; len is their number; pop() returns one of them")
+M.ASSUMPTIONS["D-FS"] = ("pyfilesystem2: isfile(p) iff p (normalised) is a file of the file system, at any depth; "
+                         "filterdir('/', files=patterns, exclude_dirs=['*']) yields each root-level file whose name matches a "
+                         "pattern exactly once; fs.path.splitext(x + '.' + e) = (x, '.' + e) when e contains neither '.' nor '/'")
+M.ASSUMPTIONS["D-IO"] = ("Bio.SeqIO.read(handle, 'genbank') returns the record stored in the file or raises ValueError")
+
+_orig_wrap = _wrap_dict_method
+
+
+def _wrap_dict_method2(name, orig):
+    inner = _orig_wrap(name, orig)
+
+    def fn(ex, st, fr, self, args, kwargs):
+        k = args[0] if args else None
+        if isinstance(k, VT) and k.t.sort == STR and not tm.is_const(k.t) and (st.get(self, "arr") is not None or not st.get(self, "items")):
+            # a symbolic str key: same array model, the key is its own text
+            st = st.fork()
+            o = ex.models.mk_seq(st, k.t)
+            ex.used_models.add("D-DICT")
+            return inner(ex, st, fr, self, [o] + list(args[1:]), kwargs)
+        return inner(ex, st, fr, self, args, kwargs)
+
+    return fn
+
+
+M.dm_get = _wrap_dict_method2("get", M.dm_get)
+M.dm_setdefault = _wrap_dict_method2("setdefault", M.dm_setdefault)
+M.dm_pop = _wrap_dict_method2("pop", M.dm_pop)
+
+
+def abstract_item(st, ident):
+    o = VObj("Item")
+    st.set_inplace(o, "ident", VT(ident))
+    st.set_inplace(o, "id", VT(tm.app("item_id", STR, ident)))
+    return o
+
+
+_prev_from_elem = MocloModels.from_elem
+
+
+def _from_elem2(self, ex, st, t):
+    if t.sort == INT and getattr(self, "elem_kind", None) == "Item":
+        return abstract_item(st, t)
+    if t.sort == INT and getattr(self, "elem_kind", None) == "FeatureAbs":
+        o = VObj("FeatureAbs")
+        st.set_inplace(o, "ident", VT(t))
+        q = VObj("QualsAbs")
+        st.set_inplace(q, "ident", VT(t))
+        st.set_inplace(o, "qualifiers", q)
+        return o
+    return _prev_from_elem(self, ex, st, t)
+
+
+MocloModels.from_elem = _from_elem2
+
+
+def km_qualsabs_get(ex, st, fr, self, args, kwargs):
+    key = args[0]
+    if isinstance(key, VT) and tm.is_const(key.t) and tm.cval(key.t) == "label":
+        o = VObj("LabelList")
+        return [(st.set(o, "ident", st.get(self, "ident")), "ok", o)]
+    raise Unsupported("qualifiers.get(%r)" % (key,))
+
+
+def m_set(ex, st, fr, args, kwargs):
+    ex.used_models.add("D-SET")
+    (v,) = args
+    if isinstance(v, VObj) and v.kind == "LabelList":
+        o = VObj("LabelSet")
+        return [(st.set(o, "ident", st.get(v, "ident")), "ok", o)]
+    raise Unsupported("set(%r)" % (v,))
+
+
+def km_labelset_intersection(ex, st, fr, self, args, kwargs):
+    ex.used_models.add("D-SET")
+    (other,) = args
+    if not isinstance(other, VDict):
+        raise Unsupported("intersection with %r" % (other,))
+    keys = [k for k in st.get(other, "items") if isinstance(k, str)]
+    o = VObj("CassSet")
+    fid = st.get(self, "ident").t
+    n = tm.app("ncass", INT, fid)
+    st = st.assume(tm.le(0, n)).set(o, "ident", VT(fid)).set(o, "len", VT(n)).set(o, "keys", VOpaque(keys))
+    o.keys = keys
+    return [(st, "ok", o)]
+
+
+def km_cassset_len(ex, st, fr, self, args, kwargs):
+    return [(st, "ok", st.get(self, "len"))]
+
+
+def km_cassset_pop(ex, st, fr, self, args, kwargs):
+    ex.used_models.add("D-SET")
+    fid = st.get(self, "ident").t
+    c = tm.app("cass", STR, fid)
+    res = ex.raise_(st.assume(tm.eq(st.get(self, "len").t, 0)), "KeyError")
+    st2 = st.assume(tm.lt(0, st.get(self, "len").t), tm.or_(*[tm.eq(c, tm.S(k)) for k in self.keys]))
+    return res + [(st2, "ok", VT(c))]
+
+
+M.KIND_METHODS.update({
+    ("QualsAbs", "get"): km_qualsabs_get,
+    ("LabelSet", "intersection"): km_labelset_intersection,
+    ("CassSet", "__len__"): km_cassset_len,
+    ("CassSet", "pop"): km_cassset_pop,
+})
+
+_prev_builtin = MocloModels.builtin
+
+
+def _builtin(self, name):
+    if name == "set":
+        return VModel("set", m_set)
+    return _prev_builtin(self, name)
+
+
+MocloModels.builtin = _builtin
+
+
+def km_member_values(ex, st, fr, self, args, kwargs):
+    return [(st, "ok", st.get(self, "_values"))]
+
+
+M.KIND_METHODS[("MemberRegistry", "values")] = km_member_values
+
+
+# ---------------------------------------------------------------------- abstract file system (D-FS, D-IO)
+def km_fs_isfile(ex, st, fr, self, args, kwargs):
+    ex.used_models.add("D-FS")
+    (name,) = args
+    return [(st, "ok", VT(tm.app("fs_isfile", BOOL, name.t)))]
+
+
+def km_fs_open(ex, st, fr, self, args, kwargs):
+    ex.used_models.add("D-FS")
+    o = VObj("ctx:transparent")
+    return [(st.set(o, "path", args[0]), "ok", o)]
+
+
+def m_seqio_read(ex, st, fr, args, kwargs):
+    ex.used_models.add("D-IO")
+    handle = args[0]
+    path = st.get(handle, "path").t
+    st = st.fork()
+    k = next(tm._fresh)
+    rec = ex.models.sym_record(st, "SeqRecord", "file%d" % k, ann_keys=("topology",))
+    st.set_inplace(rec, "file", VT(path))
+    bad = tm.app("fs_unparsable", BOOL, path)
+    return ex.raise_(st.assume(bad), "ValueError") + [(st.assume(tm.not_(bad)), "ok", rec)]
+
+
+def m_splitext(ex, st, fr, args, kwargs):
+    ex.used_models.add("D-FS")
+    (name,) = args
+    return [(st, "ok", VTuple([VT(tm.app("path_stem", STR, name.t)), VT(tm.app("path_ext", STR, name.t))]))]
+
+
+def inst_item(ex, st, fr, args, kwargs):
+    o = VObj("Item")
+    st = st.fork()
+    for k in ("id", "name", "entity", "resistance"):
+        if k in kwargs:
+            st.set_inplace(o, k, kwargs[k])
+    return [(st, "ok", o)]
+
+
+M.KIND_METHODS[("FSAbs", "isfile")] = km_fs_isfile
+M.KIND_METHODS[("FSAbs", "open")] = km_fs_open
+M.INSTANTIATE["Item"] = inst_item
+
+_prev_external = MocloModels.external
+
+
+def _external(self, base, attr):
+    name = "%s.%s" % (base, attr) if base else attr
+    table = {
+        "Bio.SeqIO": VModule("Bio.SeqIO", attrs={"read": VModel("Bio.SeqIO.read", m_seqio_read)}),
+        "fs.path.splitext": VModel("fs.path.splitext", m_splitext),
+        "fs.wrap.read_only": VModel("fs.wrap.read_only", M.m_identity),
+        "fs": VModule("fs"), "io": VModule("io"), "tarfile": VModule("tarfile"), "pkg_resources": VModule("pkg_resources"),
+        "Bio": VModule("Bio", attrs={"SeqIO": VModule("Bio.SeqIO", attrs={"read": VModel("Bio.SeqIO.read", m_seqio_read)})}),
+        "typing.NamedTuple": VModel("typing.NamedTuple", M.m_noop), "typing.Text": VOpaque("Text"),
+        "typing.Union": VOpaque("Union"), "typing.Mapping": VOpaque("Mapping"),
+    }
+    if name in table:
+        return table[name]
+    return _prev_external(self, base, attr)
+
+
+_prev_module = MocloModels.module
+
+
+def _module(self, dotted):
+    if dotted == "Bio":
+        return _external(self, "", "Bio")
+    if dotted in ("Bio.SeqIO",):
+        return _external(self, "Bio", "SeqIO")
+    return _prev_module(self, dotted)
+
+
+MocloModels.external = _external
+MocloModels.module = _module
+
+
+_prev_init_object = MocloModels.init_object
+
+
+def _init_object(self, ex, st, fr, obj, args, kwargs):
+    if obj.kind == "Item":   # typing.NamedTuple subclass: the constructor stores its fields
+        st = st.fork()
+        names = ["id", "name", "entity", "resistance"]
+        for k, v in list(zip(names, args)) + list(kwargs.items()):
+            st.set_inplace(obj, k, v)
+        return [(st, "ok", obj)]
+    return _prev_init_object(self, ex, st, fr, obj, args, kwargs)
+
+
+MocloModels.init_object = _init_object
